@@ -246,7 +246,7 @@ func oracleC09(post NodeSt) []string {
 	return nil
 }
 
-var aeKeys = []string{"role", "term", "vote", "log", "ci", "la", "si", "st", "cfg", "com", "lc"}
+var aeKeys = []string{"role", "term", "vote", "leader", "log", "ci", "la", "si", "st", "cfg", "com", "lc", "pw"}
 
 func TestE3AppendEntries(t *testing.T) {
 	rep := NewReport("E3-appendEntries")
